@@ -697,8 +697,13 @@ func GenMeta(t *tape.Tape, f *sfnt.Font) {
 // GenCMap installs a character map for numGlyphs glyphs; it returns the map
 // that was installed (nil if the font gets no cmap).
 func GenCMap(t *tape.Tape, f *sfnt.Font) map[rune]glyph.ID {
+	return GenCMapMode(t, f, t.Weighted(6, 2, 1))
+}
+
+// GenCMapMode is GenCMap with the kind of character map given: 0 = format 4,
+// 1 = format 12 (with a character beyond U+FFFF), 2 = none.
+func GenCMapMode(t *tape.Tape, f *sfnt.Font, mode int) map[rune]glyph.ID {
 	n := f.NumGlyphs()
-	mode := t.Weighted(6, 2, 1)
 	if mode == 2 {
 		return nil
 	}
